@@ -10,6 +10,9 @@ import (
 	"syscall"
 	"time"
 
+	"github.com/scrapli/scrapligo/driver/options"
+	"github.com/scrapli/scrapligo/util"
+
 	"verif/internal/yield"
 
 	"verif/internal/devsim"
@@ -35,8 +38,11 @@ type Desc struct {
 	// has been handed out). SilenceMs: the device is silent this long before the connection goes away.
 	Alive     bool       `json:"alive_honest,omitempty"`
 	SilenceMs int        `json:"silence_ms,omitempty"`
-	Seg       devsim.Seg `json:"seg"`
-	Base      int        `json:"base"`
+	// RD0: the channel's read delay is zero (options.WithReadDelay(0)): no pause between reads, none
+	// after a failing read, no grace at Close.
+	RD0  bool       `json:"read_delay_zero,omitempty"`
+	Seg  devsim.Seg `json:"seg"`
+	Base int        `json:"base"`
 	S         int        `json:"s"`
 	Want      string     `json:"want"`
 	DryErr    string     `json:"dry_err,omitempty"`
@@ -116,7 +122,11 @@ func runOnce(d Desc, settle time.Duration) mon.Result {
 			cfg.WriteErrN = d.J
 		}
 	}
-	s, err := sc.New(cfg, opTimeout)
+	var extra []util.Option
+	if d.RD0 {
+		extra = append(extra, options.WithReadDelay(0))
+	}
+	s, err := sc.New(cfg, opTimeout, extra...)
 	if err != nil {
 		return mon.Result{Verdict: mon.Inconclusive, Detail: "constructor: " + err.Error()}
 	}
@@ -418,7 +428,7 @@ func gen(tier string, seed int64) []mon.Case {
 	var cs []mon.Case
 	n := 0
 	add := func(d Desc) {
-		cs = append(cs, mon.MkCase(fmt.Sprintf("c06/%05d-%s-%s-k%d-j%d%s%s", n, d.Scenario, d.Kind, d.K, d.J, map[bool]string{true: "-unsol"}[d.Unsol], map[bool]string{true: "-sched"}[d.Sched]+map[bool]string{true: "-alive"}[d.Alive]+map[bool]string{true: fmt.Sprintf("-silence%d", d.SilenceMs)}[d.SilenceMs > 0]), d))
+		cs = append(cs, mon.MkCase(fmt.Sprintf("c06/%05d-%s-%s-k%d-j%d%s%s", n, d.Scenario, d.Kind, d.K, d.J, map[bool]string{true: "-unsol"}[d.Unsol], map[bool]string{true: "-sched"}[d.Sched]+map[bool]string{true: "-alive"}[d.Alive]+map[bool]string{true: fmt.Sprintf("-silence%d", d.SilenceMs)}[d.SilenceMs > 0]+map[bool]string{true: "-rd0"}[d.RD0]), d))
 		n++
 	}
 	segs := []devsim.Seg{{Mode: "fixed", Size: 7, Seed: seed}, {Mode: "mix", Size: 16, Seed: seed + 1, Delay: "gosched"}}
@@ -458,6 +468,11 @@ func gen(tier string, seed int64) []mon.Case {
 					if tier == "thorough" {
 						add(Desc{Scenario: sc.Name, Kind: "err", K: k, SilenceMs: 300, Seg: seg, Base: st.Base, S: st.S, Want: st.Want})
 					}
+				}
+				if sc.KStep <= 1 && (k%6 == 3 || k == st.S) && (tier == "thorough" || sc.Quick || sc.IsOpen) {
+					// no read delay at all: every pause the read loop takes is zero
+					add(Desc{Scenario: sc.Name, Kind: "eof", K: k, RD0: true, Seg: seg, Base: st.Base, S: st.S, Want: st.Want})
+					add(Desc{Scenario: sc.Name, Kind: "err-econnreset", K: k, RD0: true, Seg: seg, Base: st.Base, S: st.S, Want: st.Want})
 				}
 				if tier == "thorough" || k%5 == 2 || k == st.S {
 					for _, kind := range []string{"err-etimedout", "err-econnreset"} {
